@@ -21,7 +21,7 @@ import (
 func init() {
 	checks["c05"] = checkDef{"C05",
 		"steered: every schedule = (deployment ∈ {O_TMPFILE, --disableotmp}, initial state ∈ {absent, one complete object}, 2–3 requests from PUT/COPY/multipart-complete/DELETE/GET/HEAD with distinct bodies, sizes 3–42 and 6 attribute shapes, an interleaving of their key-touching filesystem steps enumerated by the model) replayed on single-stepped gateway processes sharing one storage directory; non-trivial = at least two requests took steps alternately (a real interleaving), distinct by (strategy, initial, requests, schedule). stress: 8 clients × 3 free-running gateway processes on one key, histories judged by Spec.Register.linearizableB.",
-		[]checkFn{c05SourceFacts, c05Steered, c05VerShape, c05Stress}}
+		[]checkFn{c05SourceFacts, c05Steered, c05VerShape, c05VerMarkerRace, c05AttrListRace, c05Stress}}
 }
 
 // repoDir: the directory of the versitygw module this harness was built against (go.mod replace).
